@@ -79,7 +79,7 @@ def run_property(mod, tier):
         f = mod.oracle(c, ii, side(i))
         if f is not None:
             failures.append((f[0], f[1], {"case": c, "model": m, "impl": i}))
-        if m is not None and m.startswith("ORACLE-MISS"):
+        if m is not None and (m.startswith("ORACLE-MISS") or m.startswith("MODEL-ABSTAINS")):
             abstained += 1      # the model needs a bzip2 oracle answer the case does not carry
         elif m != ii:
             mismatches.append((c, m, i))
